@@ -15,14 +15,21 @@ type eventUnsub struct {
 	pid *PID
 }
 
+// subKey identifies a subscriber by value (address and id), so that equal PIDs
+// held in distinct objects denote the same subscription.
+type subKey struct {
+	address string
+	id      string
+}
+
 type eventStream struct {
-	subs map[*PID]bool
+	subs map[subKey]*PID
 }
 
 func newEventStream() Producer {
 	return func() Receiver {
 		return &eventStream{
-			subs: make(map[*PID]bool),
+			subs: make(map[subKey]*PID),
 		}
 	}
 }
@@ -33,9 +40,13 @@ func newEventStream() Producer {
 func (e *eventStream) Receive(c *Context) {
 	switch msg := c.Message().(type) {
 	case eventSub:
-		e.subs[msg.pid] = true
+		if msg.pid != nil {
+			e.subs[subKey{msg.pid.Address, msg.pid.ID}] = msg.pid
+		}
 	case eventUnsub:
-		delete(e.subs, msg.pid)
+		if msg.pid != nil {
+			delete(e.subs, subKey{msg.pid.Address, msg.pid.ID})
+		}
 	default:
 		// check if we should log the event, if so, log it with the relevant level, message and attributes
 		logMsg, ok := c.Message().(EventLogger)
@@ -43,7 +54,7 @@ func (e *eventStream) Receive(c *Context) {
 			level, msg, attr := logMsg.Log()
 			slog.Log(context.Background(), level, msg, attr...)
 		}
-		for sub := range e.subs {
+		for _, sub := range e.subs {
 			c.Forward(sub)
 		}
 	}
